@@ -8,15 +8,32 @@ sys.path.insert(0, ROOT)
 from tools.mut import run_mutant
 
 import glob
+ENV_EXTRA = {}
 MUTANTS = {os.path.basename(f)[:-5]: json.load(open(f)) for f in sorted(glob.glob(os.path.join(ROOT, 'tools', 'mutants', '*.json')))}
 
 
 def one(args):
     prop, i, m = args
-    code, out = run_mutant(prop, m['file'], m['old'], m['new'], count=m.get('count', 1))
+    code, out = run_mutant(prop, m['file'], m['old'], m['new'], count=m.get('count', 1), env_extra=ENV_EXTRA)
     viol = [l for l in out.splitlines() if l.startswith('VIOLATION')]
     und = [l for l in out.splitlines() if l.startswith(('UNDECIDED', 'CHECKER'))]
     return prop, i, m, code, viol, und
+
+
+def selftest(prop, jobs=4):
+    """deductive part only (no bounded runner): every canned mutation of tools/mutants/<prop>.json must fail a named obligation"""
+    global ENV_EXTRA
+    ENV_EXTRA = {'PYVC_NO_RAC': '1', 'VERIF_TIER': 'quick'}
+    todo = [(prop, i, m) for i, m in enumerate(MUTANTS.get(prop, []))]
+    res = []
+    with cf.ThreadPoolExecutor(max_workers=jobs) as ex:
+        for prop_, i, m, code, viol, und in ex.map(one, todo):
+            expect_eq = m.get('expect') == 'equivalent'
+            res.append(dict(mutation='%s -> %s' % (m['old'][:60], m['new'][:60]), exit=code, equivalent=expect_eq,
+                            caught_by=[v.split('replay=')[-1][:120] for v in viol[:2]], undecided=und[:1]))
+    real = [r for r in res if not r['equivalent']]
+    return dict(mutants=len(real), caught_by_deductive_part=sum(1 for r in real if r['exit'] == 1), undecided=sum(1 for r in real if r['exit'] == 2),
+                missed=sum(1 for r in real if r['exit'] == 0), details=res)
 
 
 if __name__ == '__main__':
